@@ -21,6 +21,7 @@ LEVEL_TEXT = (
     "run(), nothing executed by later steps, and every result equal to the term computed from the abstract graph "
     "(so each consumer saw the finished result of the right command for every reference, in parameter order). "
     "Exhaustive for the small graphs, sampled beyond."
+    ' Further parts: the program may grow between steps (add_command of commands referencing earlier ones, by name or as objects); references through result parameters with a declared type; models 40-3000 commands deep (chains, ladders, list and nested-list links, any file order, a result near the source read before run(), an extension between two runs).'
 )
 LEVEL_NOTE = "Term equality is observed through a test library's execute(); execution counts are additionally observed on the built-in commands of generated EEMS models through execute() wrappers."
 RULE = (
